@@ -45,6 +45,22 @@ def gen_cases(rng, tier, driver, corr, stats):
         for inl in range(0, 19):
             for outl in (0, 1, 15, 16, 17, 18):
                 corr.one("PRFS %s %s %d" % (hx(gen.patterned(rng, 16)), hx(rnd_bytes(rng, inl)), outl)); stats["ops"]["PRFS"] += 1
+        # the PRF object used incrementally: absorb calls that start inside a 32-byte block and cross its boundary, squeezes in pieces;
+        # followed by the same message one-shot
+        for splits in ([5, 40], [20, 25], [31, 1, 1, 70], [32, 33], [1, 0, 62, 3], [33, 31, 64]):
+            k = gen.patterned(rng, 16)
+            msg = rnd_bytes(rng, sum(splits))
+            L = rng.choice([0, 16, 40])
+            n = rng.choice([16, 33]) if L == 0 else L
+            ses = ["X 1 prf INITK %s %d" % (hx(k), L)]
+            pos = 0
+            for c in splits:
+                ses.append("X 1 ABS %s" % hx(msg[pos:pos + c])); pos += c
+            for o in gen.partition(rng, n, 16) if n else [0]:
+                ses.append("X 1 SQZ %d" % o)
+            ses.append("X 1 FREE")
+            corr.session(ses, "X-prf-chunks"); stats["ops"]["PRF-incremental"] += 1
+            corr.one("PRF %s %d %s %d" % (hx(k), L, hx(msg), n)); stats["ops"]["PRF"] += 1
         # PrfShort must refuse every length above 16, also those whose low 32 bits are small
         for big in (17, 255, 2 ** 32, 2 ** 32 + 5, 2 ** 32 + 16, 2 ** 33 + 1, 2 ** 63, 2 ** 64 - 1):
             k = gen.patterned(rng, 16)
